@@ -721,11 +721,14 @@ class FnTranslator:
                 out.extend(self.stmt(init))
             if condvar:
                 self.fail(n, 'for with condition variable')
+            g = self.ex.ghost.get((self.cname, ('loop_before', lo)))
+            if g:
+                out.append(self.ind() + g)
             out.append(self.ind() + 'for (; %s; %s)' % (self.expr(cond) if cond else '1', self.expr(inc) if inc else ''))
             lc = self.ex.loop_contracts.get((self.cname, lo))
             if lc:
                 out.append(self.ind() + lc)
-            out.append(self.block(body))
+            out.append(self.block_with_ghost(body, None, ('loop_body_end', lo)))
             self.indent -= 1
             out.append(I + '}')
             return out
